@@ -9,14 +9,16 @@ PROFILES = ["release"]
 SHRINK_SEP = None
 RULE = ("cases: for every modulus 2..=64 every operand pair x {+,-,*,/,==, assigning forms}, every residue x {neg, inv, Display/Debug}, "
         "every residue x an exponent window + boundary exponents (2^32, 2^63, u64::MAX, ...), a window of constructor arguments; for "
-        "998244353, 10^9+7, 2^31-1, 2^31-19, 2^31-2, 2^31-3, 65536, 15015: all pairs of ~20 boundary residues (0,1,M-1,M-2,M/2,2^16,46341,...), "
+        "998244353, 10^9+7, 2^31-1, 2^31-19, 2^31-2, 2^31-3, 65536, 15015, 2^30, 46341, 46340, 46337: all pairs of ~20 boundary residues (0,1,M-1,M-2,M/2,2^16,46341,...), "
         "boundary constructor arguments (i64::MIN/MAX, +-M, 2^31, 2^32, multiples of M next to i64::MAX), Writable bytes / Readable value, "
         "then random residues, random i64 constructor arguments and random u64 exponents; a small separate stream for moduli outside the "
-        "domain (1, 2^31, 2^31+1, 2^32-1) where the spec says `any` and only model = implementation is compared. "
+        "domain (1, 2^31, 2^31+1, 2^32-1) where the spec says `any` and nothing is compared (results are only shown). inv and / are pinned "
+        "(S = ok) only for operands coprime to M; for other operands S and both views say `any`, model = implementation is still compared on raw. "
+        "every pair line evaluates + - * / == and += -= *= /=; every io line writes through a real Writer, reads the token and the written bytes through a real Reader. "
         "non-trivial = distinct in-domain case with at least one argument of magnitude > 1")
 ASSUMPTIONS = [
     "the Lean model of rlib_mint is hand-written; it is tied to the code by running both on the same cases",
-    "Modular<M> needs M at compile time: the correspondence covers the compiled-in list of 71 in-domain moduli (the theorems cover all 2 <= M < 2^31)",
+    "Modular<M> needs M at compile time: the correspondence covers the compiled-in list of 75 in-domain moduli (the theorems cover all 2 <= M < 2^31)",
     "harness built with overflow-checks=true so a wrapped intermediate shows up as panic:overflow instead of a silent wrong value",
     "the decimal token <-> i64 step of Readable/Writable is rlib_io's (properties C08/C09); here the token's value is taken as given",
 ]
